@@ -13,12 +13,13 @@ Open Scope list_scope.
    everyone is allowed, encryption and compression "none"). *)
 Inductive case :=
 | KScript (c : scase)
-| KAbrupt (kind : tkind) (first : cses) (est_cb fin_cb : nat) (ended : bool).
+| KAbrupt (kind : tkind) (first : cses) (est_cb fin_cb : nat) (ended : bool)
+          (peer_saw_end : bool).   (* the peer, where it waited for it, saw the connection end (true where it did not wait) *)
 
 Definition check (c : case) : bool :=
   match c with
   | KScript s => c14_check s
-  | KAbrupt _ _ est fin ended => Nat.eqb est 0 && Nat.eqb fin 0 && ended
+  | KAbrupt _ _ est fin ended saw => Nat.eqb est 0 && Nat.eqb fin 0 && ended && saw
   end.
 Definition agrees (c : case) : bool :=
   match c with
@@ -26,9 +27,9 @@ Definition agrees (c : case) : bool :=
       match c14_proj (k_obs s), c14_proj (model_obs s) with
       | (a, b, d), (a', b', d') => evs_eqb a a' && Bool.eqb b b' && Bool.eqb d d'
       end
-  | KAbrupt k first est fin ended =>
+  | KAbrupt k first est fin ended saw =>
       match abrupt_model k first with
-      | (e, f, d) => Nat.eqb est e && Nat.eqb fin f && Bool.eqb ended d
+      | (e, f, d) => Nat.eqb est e && Nat.eqb fin f && Bool.eqb ended d && saw
       end
   end.
 Definition mismatches (cs : list case) : list nat := bad_indices agrees cs.
